@@ -11,6 +11,37 @@ open BqVerif.Tensor
 
 variable {P α : Type}
 
+/-! ### value semantics of the parameter writes
+
+`Circ.setParam` / `Circ.setParams` of the model write through every grid entry that holds the
+same `Operation` object (`oid`).  When no object occupies two entries (`Circ.OidsDistinct`) they
+coincide with the following purely positional versions (`C06Alias.lean`), about which the
+theorems of this file are stated. -/
+
+/-- `set_param` when the addressed operation object occupies one grid entry only. -/
+def Circ.setParamVal (c : Circ P α) (i : Int) (v : P) : Except Err (Circ P α) := do
+  let (cycle, qudit, k) ← c.getParamLocation i
+  let op ← c.getOp cycle qudit
+  if k < op.params.length then
+    pure { c with ops := modifyAt cycle qudit (fun o => { o with params := o.params.set k v }) c.ops }
+  else throw .indexError
+
+/-- The loop of `set_params`, positional. -/
+def setParamsLoopVal (params : List P) :
+    List (Nat × GOp P α) → Nat → Except Err (List (Nat × GOp P α))
+  | [], _ => .ok []
+  | (cycle, op) :: rest, idx => do
+    let slice := (params.drop idx).take op.numParams
+    if slice.length ≠ op.numParams then throw .valueError
+    let rest' ← setParamsLoopVal params rest (idx + op.numParams)
+    pure ((cycle, { op with params := slice }) :: rest')
+
+/-- `set_params`, positional. -/
+def Circ.setParamsVal (c : Circ P α) (params : List P) : Except Err (Circ P α) := do
+  if params.length ≠ c.numParams then throw .valueError
+  let ops ← setParamsLoopVal params c.ops 0
+  pure { c with ops := ops }
+
 theorem paramLocLoop_ok (i : Nat) (ops : List (Nat × GOp P α)) (count : Nat)
     (hc : count ≤ i) (hi : i < count + (ops.flatMap (·.2.params)).length) :
     ∃ cy op k pre post, ops = pre ++ (cy, op) :: post ∧
@@ -222,7 +253,7 @@ theorem shape_of_shape3 {l l' : List (Nat × GOp P α)}
 /-! ### `set_param` -/
 
 theorem setParam_params {c : Circ P α} (hwf : c.WF) (i : Nat) (hi : i < c.params.length) (v : P) :
-    ∃ c', c.setParam (i : Int) v = .ok c' ∧ c'.params = c.params.set i v ∧
+    ∃ c', c.setParamVal (i : Int) v = .ok c' ∧ c'.params = c.params.set i v ∧
       c'.radixes = c.radixes ∧ c'.numCycles = c.numCycles ∧
       c'.ops.map (fun e => (e.1, e.2.loc, e.2.numParams))
         = c.ops.map (fun e => (e.1, e.2.loc, e.2.numParams)) ∧ c'.WF := by
@@ -238,7 +269,7 @@ theorem setParam_params {c : Circ P α} (hwf : c.WF) (i : Nat) (hi : i < c.param
     rw [h5]; simp
   refine ⟨{ c with ops := pre ++ (cy, { op with params := op.params.set k v }) :: post }, ?_, ?_,
     rfl, rfl, hshape, ?_⟩
-  · unfold Circ.setParam
+  · unfold Circ.setParamVal
     rw [h1]
     simp only [bind, Except.bind]
     rw [hop]
@@ -260,8 +291,8 @@ theorem setParam_params {c : Circ P α} (hwf : c.WF) (i : Nat) (hi : i < c.param
     · exact (hall e (by simp [he])).2.2.2
 
 theorem setParam_err (c : Circ P α) (i : Int) (v : P)
-    (hi : i < 0 ∨ (c.params.length : Int) ≤ i) : c.setParam i v = .error .indexError := by
-  unfold Circ.setParam
+    (hi : i < 0 ∨ (c.params.length : Int) ≤ i) : c.setParamVal i v = .error .indexError := by
+  unfold Circ.setParamVal
   rw [getParamLocation_err c i hi]
   rfl
 
@@ -270,26 +301,26 @@ theorem setParam_err (c : Circ P α) (i : Int) (v : P)
 
 theorem setParamsLoop_cons (ps : List P) (cy : Nat) (op : GOp P α) (rest : List (Nat × GOp P α))
     (idx : Nat) :
-    setParamsLoop ps ((cy, op) :: rest) idx =
+    setParamsLoopVal ps ((cy, op) :: rest) idx =
       if ((ps.drop idx).take op.numParams).length = op.numParams then
-        (match setParamsLoop ps rest (idx + op.numParams) with
+        (match setParamsLoopVal ps rest (idx + op.numParams) with
           | .ok r' => .ok ((cy, { op with params := (ps.drop idx).take op.numParams }) :: r')
           | .error e => .error e)
       else .error .valueError := by
-  simp only [setParamsLoop]
+  simp only [setParamsLoopVal]
   by_cases h : ((ps.drop idx).take op.numParams).length = op.numParams
   · simp only [h, ne_eq, not_true_eq_false, if_false, if_true]
-    cases setParamsLoop ps rest (idx + op.numParams) <;> rfl
+    cases setParamsLoopVal ps rest (idx + op.numParams) <;> rfl
   · simp only [h, ne_eq, not_false_eq_true, if_true, if_false]
     rfl
 
-/-- What a successful `setParamsLoop` returns, without any hypothesis on the input. -/
+/-- What a successful `setParamsLoopVal` returns, without any hypothesis on the input. -/
 theorem setParamsLoop_inv (ps : List P) (ops : List (Nat × GOp P α)) (idx : Nat)
-    (r : List (Nat × GOp P α)) (h : setParamsLoop ps ops idx = .ok r) :
+    (r : List (Nat × GOp P α)) (h : setParamsLoopVal ps ops idx = .ok r) :
     r.map (fun e => (e.1, e.2.loc, e.2.numParams)) = ops.map (fun e => (e.1, e.2.loc, e.2.numParams)) ∧
     (∀ e ∈ r, e.2.params.length = e.2.numParams) := by
   induction ops generalizing idx r with
-  | nil => simp only [setParamsLoop] at h; cases h; simp
+  | nil => simp only [setParamsLoopVal] at h; cases h; simp
   | cons e rest ih =>
     obtain ⟨cy, op⟩ := e
     rw [setParamsLoop_cons] at h
@@ -309,7 +340,7 @@ theorem setParamsLoop_inv (ps : List P) (ops : List (Nat × GOp P α)) (idx : Na
 
 theorem setParamsLoop_ok (ps : List P) (ops : List (Nat × GOp P α)) (idx : Nat)
     (hb : idx + (ops.map (·.2.numParams)).sum ≤ ps.length) :
-    ∃ r, setParamsLoop ps ops idx = .ok r ∧
+    ∃ r, setParamsLoopVal ps ops idx = .ok r ∧
       r.flatMap (·.2.params) = (ps.drop idx).take (ops.map (·.2.numParams)).sum := by
   induction ops generalizing idx with
   | nil => exact ⟨[], rfl, by simp⟩
@@ -324,7 +355,7 @@ theorem setParamsLoop_ok (ps : List P) (ops : List (Nat × GOp P α)) (idx : Nat
     · simp only [List.flatMap_cons, List.map_cons, List.sum_cons, hp', List.take_add, List.drop_drop]
 
 theorem setParams_roundtrip' (c : Circ P α) (ps : List P) (h : ps.length = c.numParams) :
-    ∃ c', c.setParams ps = .ok c' ∧ c'.params = ps ∧ c'.numParams = c.numParams ∧
+    ∃ c', c.setParamsVal ps = .ok c' ∧ c'.params = ps ∧ c'.numParams = c.numParams ∧
       (∀ e ∈ c'.ops, e.2.params.length = e.2.numParams) ∧
       c'.radixes = c.radixes ∧ c'.numCycles = c.numCycles ∧
       c'.ops.map (fun e => (e.1, e.2.loc, e.2.numParams))
@@ -332,7 +363,7 @@ theorem setParams_roundtrip' (c : Circ P α) (ps : List P) (h : ps.length = c.nu
   obtain ⟨r, hr, hp⟩ := setParamsLoop_ok ps c.ops 0 (by unfold Circ.numParams at h; omega)
   obtain ⟨i1, i2⟩ := setParamsLoop_inv _ _ _ _ hr
   refine ⟨{ c with ops := r }, ?_, ?_, ?_, i2, rfl, rfl, i1⟩
-  · unfold Circ.setParams
+  · unfold Circ.setParamsVal
     have : ¬ (ps.length ≠ c.numParams) := by omega
     simp only [this, if_false, bind, Except.bind, hr]
     rfl
@@ -346,26 +377,26 @@ theorem setParams_roundtrip' (c : Circ P α) (ps : List P) (h : ps.length = c.nu
     exact congrArg List.sum this
 
 theorem setParams_roundtrip (c : Circ P α) (ps : List P) (h : ps.length = c.numParams) :
-    ∃ c', c.setParams ps = .ok c' ∧ c'.params = ps ∧ c'.numParams = c.numParams ∧
+    ∃ c', c.setParamsVal ps = .ok c' ∧ c'.params = ps ∧ c'.numParams = c.numParams ∧
       (∀ e ∈ c'.ops, e.2.params.length = e.2.numParams) := by
   obtain ⟨c', h1, h2, h3, h4, -⟩ := setParams_roundtrip' c ps h
   exact ⟨c', h1, h2, h3, h4⟩
 
 theorem setParams_err (c : Circ P α) (ps : List P) (h : ps.length ≠ c.numParams) :
-    c.setParams ps = .error .valueError := by
-  unfold Circ.setParams
+    c.setParamsVal ps = .error .valueError := by
+  unfold Circ.setParamsVal
   simp only [h, ne_eq, not_false_eq_true, if_true]
   rfl
 
 /-- Inversion of a successful `set_params`. -/
-theorem setParams_inv {c c' : Circ P α} {ps : List P} (h : c.setParams ps = .ok c') :
-    ps.length = c.numParams ∧ setParamsLoop ps c.ops 0 = .ok c'.ops ∧
+theorem setParams_inv {c c' : Circ P α} {ps : List P} (h : c.setParamsVal ps = .ok c') :
+    ps.length = c.numParams ∧ setParamsLoopVal ps c.ops 0 = .ok c'.ops ∧
       c'.radixes = c.radixes ∧ c'.numCycles = c.numCycles := by
   by_cases hl : ps.length = c.numParams
-  · unfold Circ.setParams at h
+  · unfold Circ.setParamsVal at h
     have : ¬ (ps.length ≠ c.numParams) := by omega
     simp only [this, if_false, bind, Except.bind] at h
-    cases hr : setParamsLoop ps c.ops 0 with
+    cases hr : setParamsLoopVal ps c.ops 0 with
     | error e => rw [hr] at h; cases h
     | ok r =>
       rw [hr] at h
@@ -373,7 +404,7 @@ theorem setParams_inv {c c' : Circ P α} {ps : List P} (h : c.setParams ps = .ok
       exact ⟨hl, rfl, rfl, rfl⟩
   · rw [setParams_err c ps hl] at h; cases h
 
-theorem setParams_wf {c c' : Circ P α} {ps : List P} (hwf : c.WF) (h : c.setParams ps = .ok c') :
+theorem setParams_wf {c c' : Circ P α} {ps : List P} (hwf : c.WF) (h : c.setParamsVal ps = .ok c') :
     c'.WF := by
   obtain ⟨-, h2, h3, h4⟩ := setParams_inv h
   obtain ⟨i1, i2⟩ := setParamsLoop_inv _ _ _ _ h2
@@ -557,12 +588,12 @@ theorem getUnitaryAndGrad_stored_slice (op : GOp P α) (slice : List P)
     simp only [List.length_nil, ne_eq, not_true_eq_false, if_false, h0, h1]
   · simp only [List.length_nil, ne_eq, not_true_eq_false, if_false, h0, not_false_eq_true, if_true]
 
-/-- Inversion of one step of `setParamsLoop`. -/
+/-- Inversion of one step of `setParamsLoopVal`. -/
 theorem setParamsLoop_cons_ok {ps : List P} {cy : Nat} {op : GOp P α}
     {rest r : List (Nat × GOp P α)} {idx : Nat}
-    (h : setParamsLoop ps ((cy, op) :: rest) idx = .ok r) :
+    (h : setParamsLoopVal ps ((cy, op) :: rest) idx = .ok r) :
     ((ps.drop idx).take op.numParams).length = op.numParams ∧
-    ∃ r', setParamsLoop ps rest (idx + op.numParams) = .ok r' ∧
+    ∃ r', setParamsLoopVal ps rest (idx + op.numParams) = .ok r' ∧
       r = (cy, { op with params := (ps.drop idx).take op.numParams }) :: r' := by
   rw [setParamsLoop_cons] at h
   split at h
@@ -580,10 +611,10 @@ variable [Zero α] [One α] [Add α] [Mul α] (conj : α → α)
 omit [One α] in
 theorem unitaryLoop_set (ps : List P) (ops r : List (Nat × GOp P α)) (idx : Nat)
     (hlen : ∀ e ∈ ops, e.2.params.length = e.2.numParams)
-    (h : setParamsLoop ps ops idx = .ok r) (ps' : List P) (idx' : Nat) (b : Builder α) :
+    (h : setParamsLoopVal ps ops idx = .ok r) (ps' : List P) (idx' : Nat) (b : Builder α) :
     unitaryLoop conj false ps' r idx' b = unitaryLoop conj true ps ops idx b := by
   induction ops generalizing r idx idx' b with
-  | nil => simp only [setParamsLoop] at h; cases h; rfl
+  | nil => simp only [setParamsLoopVal] at h; cases h; rfl
   | cons e rest ih =>
     obtain ⟨cy, op⟩ := e
     obtain ⟨hs, r', hr', rfl⟩ := setParamsLoop_cons_ok h
@@ -608,10 +639,10 @@ theorem stateLoop_cons (sr : List Nat) (e : Bool) (ps : List P) (cy : Nat) (op :
 omit [One α] in
 theorem stateLoop_set (sr : List Nat) (ps : List P) (ops r : List (Nat × GOp P α)) (idx : Nat)
     (hlen : ∀ e ∈ ops, e.2.params.length = e.2.numParams)
-    (h : setParamsLoop ps ops idx = .ok r) (ps' : List P) (idx' : Nat) (v : T α) :
+    (h : setParamsLoopVal ps ops idx = .ok r) (ps' : List P) (idx' : Nat) (v : T α) :
     stateLoop conj sr false ps' r idx' v = stateLoop conj sr true ps ops idx v := by
   induction ops generalizing r idx idx' v with
-  | nil => simp only [setParamsLoop] at h; cases h; rfl
+  | nil => simp only [setParamsLoopVal] at h; cases h; rfl
   | cons e rest ih =>
     obtain ⟨cy, op⟩ := e
     obtain ⟨hs, r', hr', rfl⟩ := setParamsLoop_cons_ok h
@@ -636,10 +667,10 @@ theorem collectLoop_cons (e : Bool) (ps : List P) (cy : Nat) (op : GOp P α)
 omit [Zero α] [One α] [Add α] [Mul α] in
 theorem collectLoop_set (ps : List P) (ops r : List (Nat × GOp P α)) (idx : Nat)
     (hlen : ∀ e ∈ ops, e.2.params.length = e.2.numParams)
-    (h : setParamsLoop ps ops idx = .ok r) (ps' : List P) (idx' : Nat) :
+    (h : setParamsLoopVal ps ops idx = .ok r) (ps' : List P) (idx' : Nat) :
     collectLoop (α := α) false ps' r idx' = collectLoop true ps ops idx := by
   induction ops generalizing r idx idx' with
-  | nil => simp only [setParamsLoop] at h; cases h; rfl
+  | nil => simp only [setParamsLoopVal] at h; cases h; rfl
   | cons e rest ih =>
     obtain ⟨cy, op⟩ := e
     obtain ⟨hs, r', hr', rfl⟩ := setParamsLoop_cons_ok h
@@ -648,7 +679,7 @@ theorem collectLoop_set (ps : List P) (ops r : List (Nat × GOp P α)) (idx : Na
     rw [ih r' _ (fun e he => hlen e (by simp [he])) hr']
 
 theorem explicit_eq_stored_unitary {c : Circ P α} (hwf : c.WF) (ps : List P) (hne : ps ≠ [])
-    (c' : Circ P α) (h : c.setParams ps = .ok c') :
+    (c' : Circ P α) (h : c.setParamsVal ps = .ok c') :
     c'.getUnitary conj [] = c.getUnitary conj ps := by
   obtain ⟨hl, hloop, hr, -⟩ := setParams_inv h
   have h1 : ps.length ≠ 0 := fun h => hne (List.length_eq_zero_iff.1 h)
@@ -660,7 +691,7 @@ theorem explicit_eq_stored_unitary {c : Circ P α} (hwf : c.WF) (ps : List P) (h
 
 omit [One α] in
 theorem explicit_eq_stored_state {c : Circ P α} (hwf : c.WF) (ps : List P) (hne : ps ≠ [])
-    (c' : Circ P α) (h : c.setParams ps = .ok c') (v : T α) (sr : Option (List Nat)) :
+    (c' : Circ P α) (h : c.setParamsVal ps = .ok c') (v : T α) (sr : Option (List Nat)) :
     c'.getStatevector conj v sr [] = c.getStatevector conj v sr ps := by
   obtain ⟨hl, hloop, hr, -⟩ := setParams_inv h
   have h1 : ps.length ≠ 0 := fun h => hne (List.length_eq_zero_iff.1 h)
@@ -669,11 +700,11 @@ theorem explicit_eq_stored_state {c : Circ P α} (hwf : c.WF) (ps : List P) (hne
   have key : ∀ sr x, stateLoop conj sr false [] c'.ops 0 x = stateLoop conj sr true ps c.ops 0 x :=
     fun sr x => stateLoop_set conj sr ps c.ops c'.ops 0 (fun e he => (hwf.1 e he).2.2.2) hloop _ _ _
   unfold Circ.getStatevector
-  rw [if_pos h1, if_neg h2, if_neg h3, decide_eq_true h1, decide_eq_false h3]
+  rw [if_pos h1, if_neg h2, if_neg h3, decide_eq_true h1, decide_eq_false h3, hr]
   simp only [key]
 
 theorem explicit_eq_stored_grad {c : Circ P α} (hwf : c.WF) (ps : List P) (hne : ps ≠ [])
-    (c' : Circ P α) (h : c.setParams ps = .ok c') :
+    (c' : Circ P α) (h : c.setParamsVal ps = .ok c') :
     c'.getUnitaryAndGrad conj [] = c.getUnitaryAndGrad conj ps := by
   obtain ⟨hl, hloop, hr, -⟩ := setParams_inv h
   have h1 : ps.length ≠ 0 := fun h => hne (List.length_eq_zero_iff.1 h)
